@@ -1,7 +1,7 @@
 """C09 — item data is published race-free to every reader (declared happens-before edges)."""
 from cfg import Inconclusive, op_place, show, walk
 from common import (STRENGTH_LOAD, STRENGTH_STORE, atomic_op, calls_to, callee, callee_names,
-                    closure_consumer, spawn_closures, closure_creations, field_chain, fn_of, find_fn, is_call_to,
+                    closure_consumer, spawn_closures, resolve_capture, closure_creations, field_chain, fn_of, find_fn, is_call_to,
                     ordering_of, peel, site, uses_of_local, head_sources)
 
 PROP = "C09"
@@ -33,9 +33,16 @@ READ_EXCEPTIONS = {
 }
 
 
-def classify(fn, recv):
+def classify(fn, recv, depth=0):
     base, names = field_chain(recv)
     e = peel(recv)
+    # a captured variable of a closure: classify what the parent body captured
+    if names and isinstance(base, tuple) and base[0] == "arg" and base[1] == 1 and fn.b.get("kind") == "Closure" and depth < 4:
+        rc = resolve_capture(fn, names[0])
+        if rc is not None:
+            c = classify(rc[0], rc[1], depth + 1)
+            if c is not None and len(names) == 1:
+                return c
     of = e[3] if isinstance(e, tuple) and e[0] == "field" else None
     if names:
         last = names[-1]
@@ -53,7 +60,7 @@ def classify(fn, recv):
     if isinstance(base, tuple):
         if base[0] in ("arg", "local") and base[2] in ("canceled", "unmatched"):
             return base[2]
-        if base[0] == "arg":
+        if base[0] in ("arg", "local") and base[1] < len(fn.b["locals"]):
             ty = fn.b["locals"][base[1]]["ty"]
             if "Atomic<bool>" in ty or "AtomicBool" in ty:
                 return "canceled"
